@@ -569,7 +569,7 @@ func (q *aworld) noteRequestArrival(ar *appendReq) {
 	if parent != nil {
 		parent.retried = true
 		if !parent.failed {
-			q.violate("append-retry-after-success", "retry request %s follows first attempt %s which did not fail", ar.key, parent.key)
+			q.violate("append-retry-after-success", "retry request %s follows first attempt %s which did not fail with a generic append error (fault=%q)", ar.key, parent.key, parent.fault)
 		}
 		if parent.hitsServed == 0 && !parent.ambiguous {
 			q.violate("append-retry-without-recovery", "retry request %s issued although no sibling of %s was recovered", ar.key, parent.key)
